@@ -500,6 +500,12 @@ def judge(run, sim, cfg, witness, stats, faultfree, dup_used):
                     ev["res"] == "up" and ev["code"] == t.method]
             # several PUT transfers share the resource: attribute by body content
             recv = [ev for ev in recv if payload_ok(ev, t.body)[0] or len(transfers) == 1]
+            # ... and where the bytes fit two of them (a 1-byte body equals the first byte of
+            # another body once in 256 draws), by the total length the handler was told
+            others = [u for u in transfers if u is not t and u.kind == "put"]
+            recv = [ev for ev in recv if not (
+                ev.get("ptot") is not None and ev.get("ptot") != t.length and
+                any(ev.get("ptot") == u.length and payload_ok(ev, u.body)[0] for u in others))]
             single = cfg["server_single"]
             final = [ev for ev in sim.log if ev["e"] == "rsp" and ev.get("n") == 0 and
                      ev["tok"] == tok]
